@@ -1061,6 +1061,37 @@ def r_py_event_fresh(rep, f):
         rep.inconc("R-PY-EVENT-FRESH", "R-PY-EVENT-FRESH:floor", "no per-item accumulator pushed in a loop of the binding was found (expected parse_events' EventConfig)")
 
 
+def r_py_getitem(rep, f):
+    """dictionary-style access to the result (`res["y_events"]`) returns the attribute of that name: in every arm of
+    PyOdeResult.__getitem__ whose pattern is a string that names a field of the result, the arm reads that field and no other"""
+    ADT = "python::result::PyOdeResult"
+    fns = [b for b in f.body_list if b["def"].startswith(ADT) and b["def"].endswith("::__getitem__")]
+    if not fns:
+        rep.note("R-PY-GETITEM: PyOdeResult has no __getitem__ in this build")
+        return
+    adt = f.adts.get(ADT) or {}
+    fields = {fl.get("name") for v_ in adt.get("variants", []) for fl in v_.get("fields", [])} | {fl.get("name") for fl in adt.get("fields", [])}
+    n = 0
+    for b in fns:
+        rep.fn(b["def"])
+        for m in tast.find(b["body"], lambda z: z.get("k") == "Match" and any(tast.contains(a["pat"], lambda q: q.get("k") == "PLit" and q.get("lk") == "Str") for a in z.get("arms", []))):
+            for a in m["arms"]:
+                keys = [str(q.get("v")) for q in tast.find(a["pat"], lambda q: q.get("k") == "PLit" and q.get("lk") == "Str")]
+                keys = [k_ for k_ in keys if k_ in fields]
+                if not keys:
+                    continue
+                read = {(q.get("fdef") or "").rsplit("::", 1)[-1] for q in tast.find(a["body"], lambda q: q.get("k") == "Field" and (q.get("fdef") or "").startswith(ADT + "::"))}
+                for k_ in keys:
+                    n += 1
+                    key = "R-PY-GETITEM:%s" % k_
+                    if read == {k_}:
+                        rep.ok("R-PY-GETITEM", key, "res[%r] reads the field %s" % (k_, k_))
+                    else:
+                        rep.violation("R-PY-GETITEM", key, "res[%r] reads the field(s) %s: dictionary-style access returns another attribute than `res.%s`" % (k_, sorted(read) or "none", k_), a["body"].get("sp"))
+    if n < 4:
+        rep.inconc("R-PY-GETITEM", "R-PY-GETITEM:floor", "only %d string keys naming result fields found in __getitem__ (expected >= 4)" % n)
+
+
 def run(rep, tier):
     f = facts.load("python")
     rep.rule("R-PY-OPTS", "dict key -> tuple slot of parse_options -> destructured binding -> Options builder setter agree by name; method/t_eval/dense_output reach their setters; one call to solve::solve_ivp")
@@ -1088,6 +1119,8 @@ def run(rep, tier):
     r_py_fd_step(rep, f)
     rep.rule("R-PY-EVENT-FRESH", "a per-item value pushed in a loop of the binding (parse_events' EventConfig) is built anew inside the iteration, so one event's terminal/direction attributes cannot leak into the next")
     r_py_event_fresh(rep, f)
+    rep.rule("R-PY-GETITEM", "dictionary-style access res[key] returns the attribute of that name: each string arm of PyOdeResult.__getitem__ that names a field reads that field and no other")
+    r_py_getitem(rep, f)
     # the statistics the binding copies are the ones C18 pairs with evaluations (python cfg compiles the same solvers)
     rep.explanation = ("Decides the binding's plumbing tables on the `--features python` build (type-checked without a Python interpreter): option routing, status mapping, array layout, argument passing, "
                        "extrapolating evaluation, method names. NOT decided: numerical equality with the Rust API as an execution through CPython, NumPy dtype conversions, "
